@@ -4,6 +4,11 @@
                    (Client.Do / SerialClient.Do: c.mu.Lock ... c.do: conn.Write, conn.Read loop ... Unlock)
      Close/Connect = [ acquire mu ; the transport call: conn.Close() resp. dial + assign conn ;
                        release mu ]            (Client.Close, Client.Connect, SerialClient.Close)
+     abandoned Do f = [ acquire mu ; write the request frame f byte by byte ; release mu ]
+                   the caller's context ends after the write: Do returns the context error and the
+                   reply is never read (client.go do: the frame is written before ctx is looked at and
+                   `case <-ctx.Done(): return` leaves the read loop; serialclient.go do likewise).
+                   The transport still answers the request: the reply stays queued.  (Defect D18.)
    Every step of the list is a separate atomic action, so a schedule may preempt a caller between
    any two bytes of its frame.  The transport sees one byte stream ([wire]); it splits the stream
    into requests with [decode] and answers them in arrival order with [reply_of]; a read takes the
@@ -18,13 +23,17 @@ Import ListNotations.
 
 Definition frm := list N.                       (* a request or reply frame: bytes *)
 
-Inductive call := CDo (f : frm) | CCtl.         (* a request call | Close or Connect *)
+Inductive call :=
+| CDo (f : frm)      (* a request call *)
+| CCtl               (* Close or Connect *)
+| CAb (f : frm).     (* a request call abandoned by its caller after the write *)
 
 Inductive phase :=
 | PIdle                                         (* between calls, lock not held *)
 | PWriting (f : frm) (rest : list N)            (* lock held; rest = bytes of f not yet written *)
 | PGot (f : frm) (r : option frm)               (* frame written, reply read, lock still held *)
-| PCtl (touched : bool).                        (* inside Close / Connect *)
+| PCtl (touched : bool)                         (* inside Close / Connect *)
+| PAbWriting (f : frm) (rest : list N).         (* abandoned call: writing; will release without reading *)
 
 Record caller := {
   ph : phase;
@@ -66,6 +75,27 @@ Section Transport.
         {| c_owner := Some i;
            callers := set_caller (callers s) i
                         {| ph := PCtl false; pending := rs; results := results (callers s i) |};
+           wire := wire s; reads := reads s |}
+  | c_acq_ab s i f rs : ph (callers s i) = PIdle -> pending (callers s i) = CAb f :: rs ->
+      c_owner s = None ->
+      cstep s i (AAcq (CAb f))
+        {| c_owner := Some i;
+           callers := set_caller (callers s) i
+                        {| ph := PAbWriting f f; pending := rs; results := results (callers s i) |};
+           wire := wire s; reads := reads s |}
+  | c_ab_write s i f b rest : ph (callers s i) = PAbWriting f (b :: rest) ->
+      cstep s i (AWrite b)
+        {| c_owner := c_owner s;
+           callers := set_caller (callers s) i
+                        {| ph := PAbWriting f rest; pending := pending (callers s i);
+                           results := results (callers s i) |};
+           wire := wire s ++ [b]; reads := reads s |}
+  | c_ab_rel s i f : ph (callers s i) = PAbWriting f [] ->
+      cstep s i ARel
+        {| c_owner := None;
+           callers := set_caller (callers s) i
+                        {| ph := PIdle; pending := pending (callers s i);
+                           results := results (callers s i) |};
            wire := wire s; reads := reads s |}
   | c_write s i f b rest : ph (callers s i) = PWriting f (b :: rest) ->
       cstep s i (AWrite b)
@@ -125,6 +155,11 @@ Section Transport.
                   {| c_owner := Some i;
                      callers := set_caller (callers s) i {| ph := PWriting f f; pending := rs; results := results c |};
                      wire := wire s; reads := reads s |})
+        | CAb f :: rs, None =>
+            Some (AAcq (CAb f),
+                  {| c_owner := Some i;
+                     callers := set_caller (callers s) i {| ph := PAbWriting f f; pending := rs; results := results c |};
+                     wire := wire s; reads := reads s |})
         | CCtl :: rs, None =>
             Some (AAcq CCtl,
                   {| c_owner := Some i;
@@ -147,6 +182,16 @@ Section Transport.
         Some (ARel,
               {| c_owner := None;
                  callers := set_caller (callers s) i {| ph := PIdle; pending := pending c; results := results c ++ [(f, r)] |};
+                 wire := wire s; reads := reads s |})
+    | PAbWriting f (b :: rest) =>
+        Some (AWrite b,
+              {| c_owner := c_owner s;
+                 callers := set_caller (callers s) i {| ph := PAbWriting f rest; pending := pending c; results := results c |};
+                 wire := wire s ++ [b]; reads := reads s |})
+    | PAbWriting f [] =>
+        Some (ARel,
+              {| c_owner := None;
+                 callers := set_caller (callers s) i {| ph := PIdle; pending := pending c; results := results c |};
                  wire := wire s; reads := reads s |})
     | PCtl false =>
         Some (ATouch,
@@ -174,9 +219,12 @@ End Transport.
 Definition acq_order (l : list (nat * action)) : list (nat * call) :=
   flat_map (fun x => match x with (i, AAcq c) => [(i, c)] | _ => [] end) l.
 Definition frames_of (log : list (nat * call)) : list frm :=
-  flat_map (fun x => match x with (_, CDo f) => [f] | (_, CCtl) => [] end) log.
+  flat_map (fun x => match x with (_, CDo f) => [f] | (_, CCtl) => [] | (_, CAb f) => [f] end) log.
 Definition do_frames (cs : list call) : list frm :=
-  flat_map (fun c => match c with CDo f => [f] | CCtl => [] end) cs.
+  flat_map (fun c => match c with CDo f => [f] | CCtl => [] | CAb _ => [] end) cs.
+(* no call of the list is abandoned by its caller *)
+Definition no_abandon (cs : list call) : bool :=
+  forallb (fun c => match c with CAb _ => false | _ => true end) cs.
 Definition cur_frame (p : phase) : list frm :=
   match p with PWriting f _ => [f] | PGot f _ => [f] | _ => [] end.
 
@@ -185,6 +233,7 @@ Definition call_events (c : call) : list event :=
   match c with
   | CDo f => EAcq :: repeat EUse (length f) ++ [EUse; ERel]
   | CCtl => [EAcq; EUse; ERel]
+  | CAb f => EAcq :: repeat EUse (length f) ++ [ERel]
   end.
 Definition phase_events (p : phase) : list event :=
   match p with
@@ -193,6 +242,7 @@ Definition phase_events (p : phase) : list event :=
   | PGot _ _ => [ERel]
   | PCtl false => [EUse; ERel]
   | PCtl true => [ERel]
+  | PAbWriting _ rest => repeat EUse (length rest) ++ [ERel]
   end.
 Definition caller_events (c : caller) : list event :=
   phase_events (ph c) ++ flat_map call_events (pending c).
